@@ -178,6 +178,30 @@ var c08Scenarios = []c08Scenario{
 		}
 		return th, []reflect.Type{universe.StructGoType(s)}
 	}},
+	{name: "f:concurrent-decodes-nested-default-initialisers", build: func(c *explore.C, n int) ([][]histOp, []reflect.Type) {
+		// steady state: the static type (nested structs with a default initialiser) is registered before the run
+		d, o := universe.DfltOptSpecs()
+		mkv := func(a int64, str string) *ref.Val {
+			v := ref.InitStruct(d)
+			v.F[0], v.F[1] = ref.Int(ref.KI32, a), ref.Str(str)
+			return v
+		}
+		ov := func(salt int64) *ref.Val {
+			v := ref.ZeroStruct(o)
+			v.F[0] = mkv(salt, "p")
+			v.F[1] = mkv(salt+1, "v")
+			v.F[2] = ref.List(ref.KList, mkv(salt+2, "l"), ref.InitStruct(d))
+			v.F[4] = &ref.Val{K: ref.KMap, M: [][2]*ref.Val{{ref.Int(ref.KI32, 1), mkv(salt+3, "m")}}}
+			return v
+		}
+		Dec(ref.Encode(o, ov(1)), universe.New(o, nil).Interface())
+		var th [][]histOp
+		for t := 0; t < n; t++ {
+			msg := ref.Encode(o, ov(int64(10*(t+1))))
+			th = append(th, []histOp{decOp(fmt.Sprintf("DfltOptOuter:dec(%d)", t), o, msg, nil), decOp(fmt.Sprintf("DfltOptOuter:dec2(%d)", t), o, msg, nil)})
+		}
+		return th, nil
+	}},
 	{name: "e:by-value-calls-shared-scratch", freshOK: true, build: func(c *explore.C, n int) ([][]histOp, []reflect.Type) {
 		s := c08Main()
 		if c.Bool(explore.Data, "registered-before") {
@@ -205,7 +229,7 @@ func init() {
 				bound, raceBound = 3, 2
 			}
 			ps := []*harness.Phase{
-				{Name: "interleavings", Bound: bound, Gate: true, Rule: "5 scenarios x entry-point choices x all schedules with <=2 (thorough 3) preemptions (pool answer deviations share the bound); distinct by (scenario, schedule)", Body: func(c *explore.C) { c08Body(c, tier, false) }},
+				{Name: "interleavings", Bound: bound, Gate: true, Rule: "6 scenarios x entry-point choices x all schedules with <=2 (thorough 3) preemptions (pool answer deviations share the bound); distinct by (scenario, schedule)", Body: func(c *explore.C) { c08Body(c, tier, false) }},
 				{Name: "interleavings-race", Bound: raceBound, Race: true, Gate: true, Rule: "the same scenarios with <=1 (thorough 2) preemptions in a -race build whose scheduler hand-offs create no happens-before edge; any data race aborts the worker and is pinned to the schedule", Body: func(c *explore.C) { c08Body(c, tier, true) }},
 			}
 			return append(ps, e3Phases("C08")...)
